@@ -295,15 +295,17 @@ def L1(e: int, status_failed: bool) -> bool:
 
 def _e1_shards(tier):
     out = []
-    cfgs = [{"N": 3, "D": 2, "max_msgs": 6}] if tier == "quick" else [{"N": 4, "D": 3, "max_msgs": 7}, {"N": 3, "D": 2, "max_msgs": 6, "raise": 1}]
+    cfgs = [{"N": 3, "D": 2, "max_msgs": 6}, {"N": 3, "D": 2, "max_msgs": 5, "empty_type": 1}] if tier == "quick" else [{"N": 4, "D": 3, "max_msgs": 7}, {"N": 3, "D": 2, "max_msgs": 6, "raise": 1}, {"N": 3, "D": 2, "max_msgs": 6, "empty_type": 1}]
     for base in cfgs:
         out += [dict(base, prefix=p) for p in enumerate_prefixes(body_E1, "X", {}, base, 4)]
     return out
 
 
 def _e2_shards(tier):
-    base = {"N": 3, "D": 2, "max_msgs": 5} if tier == "quick" else {"N": 4, "D": 2, "max_msgs": 7}
-    return [dict(base, prefix=p) for p in enumerate_prefixes(body_E2, "X", {}, base, 3)]
+    out = []
+    for base in ([{"N": 3, "D": 2, "max_msgs": 5}, {"N": 2, "D": 1, "max_msgs": 5, "empty_type": 1}] if tier == "quick" else [{"N": 4, "D": 2, "max_msgs": 7}, {"N": 3, "D": 2, "max_msgs": 6, "empty_type": 1}]):
+        out += [dict(base, prefix=p) for p in enumerate_prefixes(body_E2, "X", {}, base, 3)]
+    return out
 
 
 OBLIGATIONS = [
@@ -317,7 +319,7 @@ OBLIGATIONS = [
         shards=_e1_shards,
         twin=[{"N": 3, "D": 2, "max_msgs": 5, "twin_label": "nested-commute"}],
         timeout={"quick": 100, "thorough": 1500},
-        bounds={"quick": "task shapes from programs of <= 3 ops (open/close/message/hand-off), depth <= 2, tasks of <= 6 messages; all 2^n subsets; all ordered pairs of remaining messages", "thorough": "programs <= 4 ops, depth <= 3, tasks <= 7 messages; plus failed actions"},
+        bounds={"quick": "task shapes from programs of <= 3 ops (open/close/message/hand-off), depth <= 2, tasks of <= 6 messages (also with the default empty action type, <= 5 messages); all 2^n subsets; all ordered pairs of remaining messages", "thorough": "programs <= 4 ops, depth <= 3, tasks <= 7 messages; plus failed actions"},
     ),
     Ob(
         "E2",
